@@ -1,8 +1,10 @@
 (* C09 — running programs is compositional and leaves user programs untouched.
-   Only statements, closed by `exact`, each followed by its axiom audit.  Every theorem is
+   Only statements, closed by `exact`/`apply`, each followed by its axiom audit.  Every theorem is
    universally quantified over the backend (type B and its four entry points), the world (every
-   parameter list, every RegRef value, every lock flag), the programs and the code variant V
-   (as written / repaired) unless a hypothesis restricts it. *)
+   parameter list, every RegRef value, every lock flag) and the programs.  `current` is the model of
+   the code as it now is (Gate.apply restores p[0] in a finally clause, the engine hands the latest
+   measured value of each mode to the next segment, _linked_copy does not deep-copy `source`);
+   `old_code` is the behaviour before those fix commits and appears only in the refutations. *)
 From Coq Require Import List ZArith Bool Arith.
 Import ListNotations.
 From SFV Require Import C09.Model C09.Proofs.
@@ -14,8 +16,8 @@ Variable bgate : B -> nat -> list nat -> list arr -> option B.
 Variable bmeas : B -> nat -> list nat -> list arr -> option (B * list Z).
 Variable breset : B -> B.
 
-(* one call with several programs = successive calls (any programs, any engine state, both
-   variants, error outcomes included) *)
+(* one call with several programs = successive calls (any programs, any engine state, any variant,
+   error outcomes included) *)
 Theorem C09_compositional_calls : forall V l1 l2 we,
   run_list binit bgate bmeas V we (l1 ++ l2) =
   match run_list binit bgate bmeas V we l1 with
@@ -24,11 +26,12 @@ Theorem C09_compositional_calls : forall V l1 l2 we,
   end.
 Proof. intros; apply run_list_app. Qed.
 
-(* [p1; p2] = the concatenated program: same outcome or same exception, same backend state, same
-   parameter lists, and p2's RegRefs end up holding what the concatenated program's hold.
-   Holds for every program pair once the copy of measured values is by mode (fixed V); for the
-   code as written only when the first segment measures no mode other than 0. *)
-Theorem C09_compositional_concat : forall V w p1 p2 pc n,
+(* [p1; p2] = the concatenated program, for EVERY pair of programs (also when the second segment
+   uses values measured by the first, on any modes): same outcome or same exception, same backend
+   state, same parameter lists, and p2's RegRefs end up holding what the concatenated program's hold.
+   The hypotheses only say: three user programs (not linked copies) on n modes with distinct,
+   existing, clear RegRef sets, and pc's circuit is the concatenation. *)
+Theorem C09_compositional_concat : forall w p1 p2 pc n,
   pn p1 = n -> pn p2 = n -> pn pc = n ->
   pcopy p1 = false -> pcopy p2 = false -> pcopy pc = false ->
   pcirc pc = pcirc p1 ++ pcirc p2 ->
@@ -37,23 +40,24 @@ Theorem C09_compositional_concat : forall V w p1 p2 pc n,
   nth (pregs p1) (wvals w) [] = vclear n ->
   nth (pregs p2) (wvals w) [] = vclear n ->
   nth (pregs pc) (wvals w) [] = vclear n ->
-  (fixed V = true \/ meas_only0 (pcirc p1)) ->
-  obs B (run_list binit bgate bmeas V (w, fresh) [p1; p2]) = obs B (run_list binit bgate bmeas V (w, fresh) [pc])
+  obs B (run_list binit bgate bmeas current (w, fresh) [p1; p2]) = obs B (run_list binit bgate bmeas current (w, fresh) [pc])
   /\ forall w2 e2 wc ec,
-       run_list binit bgate bmeas V (w, fresh) [p1; p2] = Ok (w2, e2) ->
-       run_list binit bgate bmeas V (w, fresh) [pc] = Ok (wc, ec) ->
+       run_list binit bgate bmeas current (w, fresh) [p1; p2] = Ok (w2, e2) ->
+       run_list binit bgate bmeas current (w, fresh) [pc] = Ok (wc, ec) ->
        nth (pregs p2) (wvals w2) [] = nth (pregs pc) (wvals wc) [].
 Proof. intros; eapply concat_equiv; eauto. Qed.
 
-(* after reset: whatever is run next gives exactly the result, world and engine a new engine gives
-   (the hypothesis excludes the one case where the next program is rejected before the engine looks at
-   its own state: a linked copy with measured parameters under the deep-copy defect);
-   run history, samples and measured values of every program that was run are cleared *)
-Theorem C09_reset_fresh : forall V w0 e w p ps,
-  pcopy p && negb (linkok V) && circ_symbolic (wstore w) (pcirc p) = false ->
-  run_list binit bgate bmeas V (w, snd (reset breset (w0, e))) (p :: ps)
-  = run_list binit bgate bmeas V (w, fresh) (p :: ps).
-Proof. intros; apply reset_like_fresh; assumption. Qed.
+(* after a reset EVERY later session of run / reset calls (failing calls included) behaves as on a
+   new engine: same outcome of every call, same world at the end (parameter lists, RegRef values,
+   lock flags), and engines that agree on run history, samples, measured values and -- as soon as
+   anything has been run -- on the backend state.  Holds for every variant. *)
+Theorem C09_reset_fresh : forall V h w e,
+  let after := reset breset (w, e) in
+  snd (run_hist binit bgate bmeas breset V after h) = snd (run_hist binit bgate bmeas breset V (fst after, fresh) h)
+  /\ fst (fst (run_hist binit bgate bmeas breset V after h)) = fst (fst (run_hist binit bgate bmeas breset V (fst after, fresh) h))
+  /\ eng_equiv B (snd (fst (run_hist binit bgate bmeas breset V after h)))
+                 (snd (fst (run_hist binit bgate bmeas breset V (fst after, fresh) h))).
+Proof. intros; apply reset_then_history. Qed.
 
 Theorem C09_reset_clears : forall w (e : eng B) p,
   In p (erun e) -> pregs p < length (wvals w) ->
@@ -62,12 +66,11 @@ Theorem C09_reset_clears : forall w (e : eng B) p,
   /\ elog (snd (reset breset (w, e))) = [].
 Proof. intros; apply reset_clears; auto. Qed.
 
-(* every parameter list of every op object is the same after a whole session of run / reset calls
-   as before it: for the repaired Gate.apply always, for the code as written when no call raised *)
-Theorem C09_store_unchanged : forall V h we,
-  (safe V = true \/ Forall (fun o => o = None) (snd (run_hist binit bgate bmeas breset V we h))) ->
-  wstore (fst (fst (run_hist binit bgate bmeas breset V we h))) = wstore (fst we).
-Proof. intros; apply run_hist_store; auto. Qed.
+(* every parameter list of every op object is the same after ANY session of run / reset calls as
+   before it, whatever the calls did (ParameterError, backend error, register mismatch included) *)
+Theorem C09_store_unchanged : forall h we,
+  wstore (fst (fst (run_hist binit bgate bmeas breset current we h))) = wstore (fst we).
+Proof. intros; apply run_hist_store; left; reflexivity. Qed.
 
 End Statements.
 
@@ -89,43 +92,43 @@ Theorem C09_decompose_twice_restores : forall ids d, NoDup ids -> (forall i, In 
 Proof. exact flip_all_involutive. Qed.
 Print Assumptions C09_decompose_twice_restores.
 
-(* what the faithful model of the current code falsifies (each replayed on the implementation) *)
-Theorem C09_store_changed_on_exception_refuted :
-  exists w p, match tb_run as_written (w, fresh) [p] with
+(* what the model of the OLD code (before commits 0e1fbb4, 711526c, 8c7ef76) falsifies; each witness
+   is kept as a regression input in corpus/ and holds on the current code *)
+Theorem C09_old_store_changed_on_exception_refuted :
+  exists w p, match tb_run old_code (w, fresh) [p] with
               | Err EParam (w', _) => wstore w' <> wstore w
               | _ => False
               end.
 Proof. exact store_changed_on_exception_refuted. Qed.
-Print Assumptions C09_store_changed_on_exception_refuted.
+Print Assumptions C09_old_store_changed_on_exception_refuted.
 
-Theorem C09_compositional_as_written_refuted :
+Theorem C09_old_compositional_refuted :
   exists w p1 p2 pc, pcirc pc = pcirc p1 ++ pcirc p2 /\
-    obs tb (tb_run as_written (w, fresh) [p1; p2]) <> obs tb (tb_run as_written (w, fresh) [pc]).
-Proof. exact compositional_as_written_refuted. Qed.
-Print Assumptions C09_compositional_as_written_refuted.
+    obs tb (tb_run old_code (w, fresh) [p1; p2]) <> obs tb (tb_run old_code (w, fresh) [pc]).
+Proof. exact compositional_old_refuted. Qed.
+Print Assumptions C09_old_compositional_refuted.
 
-Theorem C09_compositional_as_written_wrong_mode_refuted :
+Theorem C09_old_compositional_wrong_mode_refuted :
   exists w p1 p2 pc, pcirc pc = pcirc p1 ++ pcirc p2 /\
-    fst (fst (obs tb (tb_run as_written (w, fresh) [p1; p2]))) = None /\
-    fst (fst (obs tb (tb_run as_written (w, fresh) [pc]))) = Some EParam.
-Proof. exact compositional_as_written_wrong_mode_refuted. Qed.
-Print Assumptions C09_compositional_as_written_wrong_mode_refuted.
+    fst (fst (obs tb (tb_run old_code (w, fresh) [p1; p2]))) = None /\
+    fst (fst (obs tb (tb_run old_code (w, fresh) [pc]))) = Some EParam.
+Proof. exact compositional_old_wrong_mode_refuted. Qed.
+Print Assumptions C09_old_compositional_wrong_mode_refuted.
 
-(* the hypotheses of C09_compositional_concat are satisfiable (and its conclusion is not vacuous):
-   a first segment that measures mode 0, a second that feeds the value forward *)
-Example C09_concat_instance :
-  let m0 := mkCmd KMeas 5 1 false [0] in
-  let u0 := mkCmd KGate 0 0 false [1] in
-  let w := mkWorld [[PMeas 0]; []] [vclear 2; vclear 2; vclear 2] [false; false; false] in
-  meas_only0 [m0] /\
-  obs tb (tb_run as_written (w, fresh) [mkProg 0 0 2 false [m0]; mkProg 1 1 2 false [u0]])
-  = obs tb (tb_run as_written (w, fresh) [mkProg 2 2 2 false [m0; u0]]).
-Proof.
-  split; [repeat constructor; intros _ m [<-|[]]; reflexivity|vm_compute; reflexivity].
-Qed.
-
-Theorem C09_linked_copy_rerun_refuted :
-  exists w c, (match tb_run as_written (w, fresh) [mkProg 1 0 2 true c] with Err EAttr _ => True | _ => False end)
-           /\ (match tb_run as_written (w, fresh) [mkProg 0 0 2 false c] with Ok _ => True | _ => False end).
+Theorem C09_old_linked_copy_rerun_refuted :
+  exists w c, (match tb_run old_code (w, fresh) [mkProg 1 0 2 true c] with Err EAttr _ => True | _ => False end)
+           /\ (match tb_run old_code (w, fresh) [mkProg 0 0 2 false c] with Ok _ => True | _ => False end).
 Proof. exact linked_copy_rerun_refuted. Qed.
-Print Assumptions C09_linked_copy_rerun_refuted.
+Print Assumptions C09_old_linked_copy_rerun_refuted.
+
+(* the hypotheses of C09_compositional_concat are satisfiable and its conclusion is not vacuous: the
+   very witness that refutes the old code (first segment measures mode 1, second feeds q[1] forward)
+   satisfies them, and the two runs agree on the current code *)
+Example C09_concat_instance :
+  let m1 := mkCmd KMeas 5 1 false [1] in
+  let u1 := mkCmd KGate 0 0 false [0] in
+  let w := mkWorld [[PMeas 1]; []] [vclear 2; vclear 2; vclear 2] [false; false; false] in
+  obs tb (tb_run current (w, fresh) [mkProg 0 0 2 false [m1]; mkProg 1 1 2 false [u1]])
+  = obs tb (tb_run current (w, fresh) [mkProg 2 2 2 false [m1; u1]])
+  /\ fst (fst (obs tb (tb_run current (w, fresh) [mkProg 2 2 2 false [m1; u1]]))) = None.
+Proof. vm_compute. split; reflexivity. Qed.
